@@ -1179,8 +1179,9 @@ theorem pushRejected_quiet (cfg : ScanCfg) (σ : Scanner) (pos : Nat) (tok : Tok
     | ok s1 =>
       rw [hne] at e1
       dsimp only at e1
-      obtain ⟨e, he, _, _, _, hnum⟩ := hr s1.parser
+      obtain ⟨e, he, hne', _, _, hnum⟩ := hr s1.parser
       rw [if_neg (by rw [he]; simp)] at e1
+      rw [if_neg (by rw [he]; cases e <;> first | exact absurd rfl hne' | decide)] at e1
       cases e1
       rw [finQ_number cfg σ s1 hn hne, finQ_idle]
       · exact congrArg Except.ok (outside_queue cfg _ tok)
